@@ -70,6 +70,8 @@ type c43Rec struct {
 	Req      []c43Req    `json:"req"`
 	Loads    []c43Load   `json:"loads"`
 	Cbs      [][2]string `json:"cbs"`
+	Copies   []c43Copy   `json:"copies"` // repo variant: every stored copy of the requested blobs
+	SFault   string      `json:"sfault"` // repo variant: fault of the streamed pack: none | flip | packfail
 	CbErrAt  int         `json:"cberr_at"`
 	Fallback bool        `json:"fallback"`
 	Ret      string      `json:"ret"`
@@ -171,7 +173,7 @@ var errC43Injected = errors.New("verif: injected download failure")
 var errC43Cb = errors.New("verif: callback refuses")
 
 func c43RunDirect(l *c43Layout, key *crypto.Key, dec *zstd.Decoder, sc c43Scenario) c43Rec {
-	rec := c43Rec{Variant: "direct", Layout: l.name, Fault: fmt.Sprintf("%s/%d", sc.fault, sc.faultArg), Req: []c43Req{}, Loads: []c43Load{}, Cbs: [][2]string{},
+	rec := c43Rec{Variant: "direct", Layout: l.name, Fault: fmt.Sprintf("%s/%d", sc.fault, sc.faultArg), Req: []c43Req{}, Loads: []c43Load{}, Cbs: [][2]string{}, Copies: []c43Copy{},
 		CbErrAt: sc.cbErrAt, Fallback: sc.fallback}
 	packID := restic.Hash([]byte("c43/" + l.name))
 	byHandle := map[restic.BlobHandle]*c43Blob{}
